@@ -10,16 +10,16 @@ CLAIMED = {
    note="Assumed: ed25519 (uninterpreted edVerify/edSign/key derivation with sign-then-verify correctness; EUF-CMA unforgeability is not expressible as a contract), proto.Marshal, binary.PutUint32 (contracts/extern_crypto.spec); wfToken as established by Unmarshal (its decode-side contract is part of C10). Not decided: mutation rejection beyond the iff (it follows from the iff plus EUF-CMA).",
    technique=T, ref="4/C01"),
  "C03": dict(
-   text="Proof (partial) by write frames inside Authorize: the per-block loop is proved to write neither the working world's fact set (cell and visible elements) nor its rules - every block's facts and rules go into a private clone created for that block (World.Clone is proved to return fresh cells; the clone may share the fact array, and is proved to write only beyond the working world's length). Authorizer checks, authority checks and policies are evaluated before that loop; Query is proved to read the working world only.",
+   text="Proof (partial) by write frames inside Authorize: the per-block loop is proved to write neither the working world's fact set (cell and visible elements) nor its rules - every block's facts and rules go into a private clone created for that block (World.Clone is proved to return fresh cells; the clone may share the fact array, and is proved to write only beyond the working world's length). Authorizer checks, authority checks and policies are evaluated before that loop; Query is proved to read the working world only. Because World.Clone shares term storage between the working world and the block worlds, the datalog evaluation functions (Run, QueryRule, Apply, combine, Evaluate, set intersection/union, fact insertion, variable binding) also serve this property: their read-only frames and freshly allocated results are part of the isolation argument.",
    note="Not decided: the converse direction as a postcondition (authority and authorizer facts are visible in every block world: follows from World.Clone's same_facts but is not stated on Authorize), and identity of outcomes with/without a block's facts (a relational statement over two runs: outside one-call contracts).",
    technique=T, ref="4/C03"),
  "C04": dict(
-   text="Proof (partial): Authorize is under contract with invariants for all 14 loops; proved: a nil result requires a matched allow policy (err == nil ==> some policy of kind allow exists and the policy loop set the verdict from the first matching policy), a failing or limited run is returned as the error, and a nil result implies the fact count is below the limit.",
+   text="Proof (partial): Authorize is under contract with invariants for all 14 loops; proved: a nil result requires a matched allow policy (err == nil ==> some policy of kind allow exists and the policy loop set the verdict from the first matching policy), a failing or limited run is returned as the error, a nil result implies the fact count is below the limit, and check failure takes precedence: every return statement that hands out the policy verdict (the first matching policy's result, or 'no matching policy') is proved to be reached only when no check has failed and one block world per block has been evaluated, wherever such a return stands in the function.",
    note="Not decided: the full decision procedure as a postcondition (every check has a satisfied query in its scope <=> no check error): it needs a specification-level definition of 'query satisfied in scope', i.e. the Datalog semantics of C05, which is not available as a contract. Error message contents are not specified.",
    technique=T, ref="4/C04"),
  "C05": dict(
-   text="Proof (partial). Leaves with full functional contracts: Term.Equal (all 7 implementations against one interface contract), Predicate.Equal/Match/Clone, FactSet.Insert/InsertAll (set semantics, no-growth => subset), advanceIndexes (lexicographic successor with carry), MatchedVariables Insert/Complete/Clone, World AddFact/AddRule/ResetRules/Clone. Join soundness: the rule-application goroutine is proved to send only bindings that unify every variable position of every body predicate with the fact chosen for it (first occurrence binds, later occurrences passed Term.Equal), with matching arity and name. Fixpoint step: a nil verdict is sent only when an iteration added no fact.",
-   note="Rule.Apply, combine$1, World.Run/Run$1 and QueryRule are also under contract for well-formedness and frames (the source fact set is never written; new facts only grow). Not decided: completeness of the enumeration (every matching combination is produced - a statement over the whole sequence of channel values, which the producer/consumer rule does not carry; the thorough tier cross-checks it on the real code against a brute-force reference over a small corpus), that expressions filter exactly (Evaluate's full semantics), and minimality of the model.",
+   text="Proof (partial). Leaves with full functional contracts: Term.Equal (all 7 implementations against one interface contract), Predicate.Equal/Match/Clone, FactSet.Insert/InsertAll (set semantics, no-growth => subset), advanceIndexes (lexicographic successor with carry), MatchedVariables Insert/Complete/Clone, World AddFact/AddRule/ResetRules/Clone. Join soundness: the rule-application goroutine is proved to send only bindings that unify every variable position of every body predicate with the fact chosen for it (first occurrence binds, later occurrences passed Term.Equal), with matching arity and name. Fixpoint step: a nil verdict is sent only when an iteration added no fact. The enumeration's stop reasons are under contract per return statement (no fact at all; odometer exhausted with the first index at the last fact; after an error was sent; no predicate).",
+   note="Rule.Apply, combine$1, World.Run/Run$1 and QueryRule are also under contract for well-formedness and frames (the source fact set is never written; new facts only grow). Not decided: completeness of the enumeration between start and exhaustion (every matching combination is produced - a statement over the whole sequence of channel values, which the producer/consumer rule does not carry; the thorough tier cross-checks it on the real code against a brute-force reference over a small corpus), that expressions filter exactly (Evaluate's full semantics), and minimality of the model.",
    technique=T, ref="4/C05"),
  "C06": dict(
    text="Proof: every Eval of the operator table, Evaluate, the evaluation stack and the symbol-table functions they use are under contract; each row of the table is an ensures clause discharged for all operand values (64-bit wrap modelled exactly), together with every panic site (nil, index, type assertion, division, unhashable map key) in those functions. All 20 operator implementations are also verified against the interface-method contracts used by Evaluate.",
@@ -50,8 +50,8 @@ CLAIMED = {
    note="Not yet under contract: LoadPolicies, SerializePolicies, PrintWorld, AddBlock/AddAuthorizer wrappers. 'behaves exactly like a new authorizer' is decided as state equality of what Reset installs with what the constructor installs (both are clones of the same base state), not as a relational statement over runs.",
    technique=T, ref="4/C13"),
  "C14": dict(
-   text="Proof (partial) for the conversion layer between participle's syntax tree and the values the library works with: Term.ToBiscuit row by row (integer, string, variable, bool, set without variables, parameter substituted or 'unbound parameter' error, value or error never both), the operator table at each precedence level (every level appends exactly its own operators: || ; && ; comparisons ; + - ; * / ; methods), negation and parentheses appended after their operand (postfix order of each node), 'or' as alternative queries (one rule per alternative), allow/deny kinds, 'query' heads, facts without variables, every flattened expression checked for unconverted operands (the repaired defect), and panic freedom of all 35 functions of the layer and of the six entry points.",
-   note="Assumed, not proved: participle itself - lexing, the grammar's precedence and associativity as encoded in the struct tags, and the shape of the tree it returns (required captures and elements of repeated captures are non-nil: 'assumes' clauses and the extern contract of ParseString). So 'denotes exactly the documented grammar' is decided only from the tree downwards; the postfix order of a whole expression is decided per node (each node appends its operands' output then its own operator), not as one statement over the flattened sequence.",
+   text="Proof (partial) for the conversion layer between participle's syntax tree and the values the library works with: Term.ToBiscuit row by row (integer, string, variable, bool, set without variables, parameter substituted or 'unbound parameter' error, value or error never both), the operator spelling table (text of the operator token -> operator constant, 19 rows proved from the map literal, which is checked to be a constant table), the operator table at each precedence level (every level appends exactly its own operators: || ; && ; comparisons ; + - ; * / ; methods), negation and parentheses appended after their operand (postfix order of each node), 'or' as alternative queries (one rule per alternative), allow/deny kinds, 'query' heads, facts without variables, every flattened expression checked for unconverted operands (the repaired defect), and panic freedom of all 35 functions of the layer and of the six entry points.",
+   note="Assumed, not proved: participle itself - lexing (including the token table of regular expressions handed to it; the thorough tier cross-checks a corpus of spellings and layouts on the real parser), the grammar's precedence and associativity as encoded in the struct tags, and the shape of the tree it returns (required captures and elements of repeated captures are non-nil: 'assumes' clauses and the extern contract of ParseString). So 'denotes exactly the documented grammar' is decided only from the tree downwards; the postfix order of a whole expression is decided per node (each node appends its operands' output then its own operator), not as one statement over the flattened sequence.",
    technique=T, ref="4/C14"),
  "C16": dict(
    text="Proof: the key-selection closures are proved against the statement (id present and registered -> that key; id present and unknown -> ErrNoPublicKeyAvailable, never the default; no id -> default or the error); newBiscuit stores the identifier given by the options; Append and Seal are proved to carry the parent's identifier (value semantics of *uint32).",
